@@ -216,7 +216,9 @@ type Config struct {
 	Logger   string   // "", "channel", "codec", "log"
 	Daemon   bool     // own the background cleanup goroutine (C17)
 	NoExpire bool
-	Clock    *time.Time // share the virtual clock of another world
+	Clock    *time.Time  // share the virtual clock of another world
+	Sorted   [][2]string // sorted indexes {name, column} created before any data (twins keep them)
+	Triggers [][2]string // triggers {name, column} with a counting callback, created before any data
 }
 
 // TrigEvent is one trigger callback.
@@ -228,21 +230,22 @@ type TrigEvent struct {
 
 // World is a real collection paired with its model.
 type World struct {
-	Cfg      Config
-	C        *column.Collection
-	M        *Model
-	Commits  []commit.Commit // every commit emitted so far (deep copies), emission order
-	Emitters []int           // scheduler thread that emitted each commit (codec/log loggers only)
-	Clock    *time.Time      // virtual clock (shared with twins)
-	Daemon   *vsched.Daemon
-	TrigLog  map[string]*[]TrigEvent
-	Poisoned bool // a panic happened inside the collection: never touch it again
-	OwnReads bool // inside a body, re-read what was just written: must still be the committed value
-	Sched    bool // bodies run concurrently under the scheduler: the model is the INITIAL state, so checks against it are off
-	Bulk     map[uint32]bool
-	ch       commit.Channel
-	tick     chan time.Time
-	recErr   error
+	Cfg       Config
+	C         *column.Collection
+	M         *Model
+	Commits   []commit.Commit // every commit emitted so far (deep copies), emission order
+	Emitters  []int           // scheduler thread that emitted each commit (codec/log loggers only)
+	Clock     *time.Time      // virtual clock (shared with twins)
+	Daemon    *vsched.Daemon
+	TrigLog   map[string]*[]TrigEvent
+	Poisoned  bool // a panic happened inside the collection: never touch it again
+	OwnReads  bool // inside a body, re-read what was just written: must still be the committed value
+	Sched     bool // bodies run concurrently under the scheduler: the model is the INITIAL state, so checks against it are off
+	Bulk      map[uint32]bool
+	TrigCalls int // calls of the Config.Triggers callbacks
+	ch        commit.Channel
+	tick      chan time.Time
+	recErr    error
 }
 
 var errBody = errors.New("verif: body error")
@@ -354,6 +357,16 @@ func NewWorld(cfg Config) *World {
 	}
 	for _, ix := range cfg.Indexes {
 		w.CreateIndex(ix)
+	}
+	for _, sx := range cfg.Sorted {
+		if err := w.C.CreateSortIndex(sx[0], sx[1]); err != nil {
+			panic(err)
+		}
+	}
+	for _, tr := range cfg.Triggers {
+		if err := w.C.CreateTrigger(tr[0], tr[1], func(r column.Reader) { w.TrigCalls++ }); err != nil {
+			panic(err)
+		}
 	}
 	return w
 }
